@@ -40,6 +40,21 @@ Theorem C20_exceptions_of_ok_tree : forall c, cfg_ok c = true -> exceptions c = 
 Proof. exact exceptions_of_ok_cfg. Qed.
 Print Assumptions C20_exceptions_of_ok_tree.
 
+(** The imported state is well-formed again, so the round trip can be iterated: importing the second
+    export at any later height gives a third export equal to the first up to the epoch start heights. *)
+Theorem C20_imported_state_wf : forall F env h t s s',
+  wf_app F env s -> state_equiv false false env h t s s' -> wf_app F env s'.
+Proof. exact wf_after_import. Qed.
+Print Assumptions C20_imported_state_wf.
+
+Theorem C20_roundtrip_twice : forall c F env h t h2 t2 s, cfg_ok c = true -> wf_app F env s ->
+  exists g s' s'' g'',
+    export_app env s = Some g /\ init_app c F env (tf_bankmd (a_tf s)) h t g = Some s' /\
+    init_app c F env (tf_bankmd (a_tf s')) h2 t2 (rebase_gen h g) = Some s'' /\
+    export_app env s'' = Some g'' /\ gen_equiv h2 g g''.
+Proof. exact roundtrip_twice. Qed.
+Print Assumptions C20_roundtrip_twice.
+
 (** Per module. *)
 Theorem C20_sudo_roundtrip : forall s g, export_sudo s = Some g -> export_sudo (init_sudo g) = Some g /\ init_sudo g = s.
 Proof. exact sudo_roundtrip. Qed.
